@@ -86,6 +86,11 @@ def impl(op: str) -> str:
             return "ok " + hx(b58.a2b_base58(h2s(a[1])))
         if k == "b58cenc":
             return "ok " + s2h(b58.b2a_hashed_base58(unhx(a[1])))
+        if k == "b58cenc_mut":
+            buf = bytearray(unhx(a[1]))
+            first = "ok " + s2h(b58.b2a_hashed_base58(buf))
+            buf[:] = unhx(a[2])
+            return first + " | ok " + s2h(b58.b2a_hashed_base58(buf))
         if k == "b58cdec":
             return "ok " + hx(b58.a2b_hashed_base58(h2s(a[1])))
         if k == "b58cvalid":
@@ -342,6 +347,14 @@ def oracle(op: str, out: str):
                 return "b2a_base58(a2b_base58(s)) != s"
             if _ref_b58dec(s) != d:
                 return "a2b_base58(s) differs from the reference decoder"
+    elif k == "b58cenc_mut":
+        parts = out.split(" | ")
+        if len(parts) != 2:
+            return "b2a_hashed_base58 of a mutable buffer raised: " + out[:80]
+        for d_hex, o in zip(a[1:3], parts):
+            why = oracle("b58cenc " + d_hex, o)
+            if why:
+                return why + " (one buffer encoded, overwritten in place, encoded again)"
     elif k == "b58cenc":
         d = unhx(a[1])
         if not out.startswith("ok"):
@@ -601,6 +614,24 @@ def gen(ctx, emit):
             i = rng.randrange(len(s))
             bad = rng.choice(["0", "O", "I", "l", " ", "-", "_", "é", "€", "\U0001f600", "\x00", "@", "[", "`", "{", ":"])
             emit("b58dec " + s2h(s[:i] + bad + s[i + 1:]))
+    # every printable ASCII character outside the alphabet (and the characters format strings care about: % { } \) at the
+    # first / a middle / the last position of a valid string: the decoders answer with EncodingError / False, nothing else
+    good = _ref_b58enc(bytes(range(1, 22)) + _dsha4(bytes(range(1, 22))))
+    outside = [chr(c) for c in range(32, 127) if chr(c) not in ALPHA] + ["%s", "%d", "%%", "%(x)s", "{}", "{0}", "\\", "%"]
+    for bad in outside:
+        for i in (0, len(good) // 2, len(good) - 1):
+            t = good[:i] + bad + good[i + 1:]
+            emit("b58dec " + s2h(t), "outside-alphabet")
+            emit("b58cdec " + s2h(t), "outside-alphabet")
+            if i == 0:
+                emit("b58cvalid " + s2h(t), "outside-alphabet")
+                emit("c11_pb58 " + s2h(t), "outside-alphabet")
+    # one mutable buffer encoded, overwritten in place, encoded again (same length and other lengths)
+    for _ in range(ctx.n(40, 1000)):
+        n = rng.choice([0, 1, 4, 20, 21, 33])
+        d1 = rb(n)
+        d2 = rb(n) if rng.random() < 0.7 else rb(rng.choice([0, 1, 5, 21]))
+        emit("b58cenc_mut %s %s" % (hx(d1), hx(d2)), "mutable-buffer")
     for _ in range(ctx.n(1200, 30000)):
         d = b"\x00" * rng.choice([0, 0, 1, 2]) + rb(rng.choice([0, 1, 4, 20, 21, 33, 34, rng.randrange(0, 80)]))
         s = _ref_b58enc(d + _dsha4(d))
